@@ -119,46 +119,7 @@ mod verif_c02 {
             Ok(())
         }
 
-        fn called(&self) {
-            unsafe { *self.calls.get() += 1 }
-        }
-        fn calls(&self) -> u64 {
-            unsafe { *self.calls.get() - CALLS_BASE }
-        }
-    }
-    // unique magic initial value (Kani aliases equal-valued statics/constants)
-    const CALLS_BASE: u64 = 0xA5A5_3001_5EED_3001;
-
-    fn ids_vec(n: usize, a: Key, b: Key) -> datacake_crdt::verif_api::IdVec {
-        let mut v = datacake_crdt::verif_api::IdVec::new();
-        if n >= 1 {
-            v.push(a);
-        }
-        if n >= 2 {
-            v.push(b);
-        }
-        v
-    }
-
-    #[async_trait::async_trait]
-    impl Storage for ModelStore {
-        type Error = StoreErr;
-        type DocsIter = std::iter::Empty<Document>;
-        type MetadataIter = std::iter::Empty<(Key, HLCTimestamp, bool)>;
-
-        async fn get_keyspace_list(&self) -> Result<std::vec::Vec<String>, Self::Error> {
-            Ok(std::vec::Vec::new())
-        }
-
-        async fn iter_metadata(&self, _keyspace: &str) -> Result<Self::MetadataIter, Self::Error> {
-            Ok(std::iter::empty())
-        }
-
-        async fn remove_tombstones(
-            &self,
-            _keyspace: &str,
-            keys: impl Iterator<Item = Key> + Send,
-        ) -> Result<(), BulkMutationError<Self::Error>> {
+        fn do_remove_tombstones(&self, keys: impl Iterator<Item = Key>) -> Result<(), BulkMutationError<StoreErr>> {
             self.called();
             let mut done = [0 as Key; 2];
             let mut n = 0usize;
@@ -184,34 +145,7 @@ mod verif_c02 {
             Ok(())
         }
 
-        // NOTE: the *_with_ctx methods do the work themselves: the trait's default bodies await a second
-        // boxed future of the same dyn type, whose drop glue Kani unwinds recursively (no result).
-        async fn put_with_ctx(&self, _keyspace: &str, document: Document, _ctx: Option<&PutContext>) -> Result<(), Self::Error> {
-            self.do_put(document)
-        }
-
-        async fn put(&self, _keyspace: &str, document: Document) -> Result<(), Self::Error> {
-            self.do_put(document)
-        }
-
-        async fn multi_put_with_ctx(
-            &self,
-            _keyspace: &str,
-            documents: impl Iterator<Item = Document> + Send,
-            _ctx: Option<&PutContext>,
-        ) -> Result<(), BulkMutationError<Self::Error>> {
-            self.do_multi_put(documents)
-        }
-
-        async fn multi_put(
-            &self,
-            _keyspace: &str,
-            documents: impl Iterator<Item = Document> + Send,
-        ) -> Result<(), BulkMutationError<Self::Error>> {
-            self.do_multi_put(documents)
-        }
-
-        async fn mark_as_tombstone(&self, _keyspace: &str, doc_id: Key, timestamp: HLCTimestamp) -> Result<(), Self::Error> {
+        fn do_mark_as_tombstone(&self, doc_id: Key, timestamp: HLCTimestamp) -> Result<(), StoreErr> {
             self.called();
             if kani::any() {
                 return Err(StoreErr);
@@ -220,11 +154,7 @@ mod verif_c02 {
             Ok(())
         }
 
-        async fn mark_many_as_tombstone(
-            &self,
-            _keyspace: &str,
-            documents: impl Iterator<Item = DocumentMetadata> + Send,
-        ) -> Result<(), BulkMutationError<Self::Error>> {
+        fn do_mark_many_as_tombstone(&self, documents: impl Iterator<Item = DocumentMetadata>) -> Result<(), BulkMutationError<StoreErr>> {
             self.called();
             let mut done = [0 as Key; 2];
             let mut n = 0usize;
@@ -248,6 +178,149 @@ mod verif_c02 {
                 return Err(BulkMutationError::new(StoreErr, ids_vec(n, done[0], done[1])));
             }
             Ok(())
+        }
+
+        fn called(&self) {
+            unsafe { *self.calls.get() += 1 }
+        }
+        fn calls(&self) -> u64 {
+            unsafe { *self.calls.get() - CALLS_BASE }
+        }
+    }
+    // unique magic initial value (Kani aliases equal-valued statics/constants)
+    const CALLS_BASE: u64 = 0xA5A5_3001_5EED_3001;
+
+    fn ids_vec(n: usize, a: Key, b: Key) -> datacake_crdt::verif_api::IdVec {
+        // the contract says WHICH ids were written, not in which order they are reported: arbitrary order
+        let mut v = datacake_crdt::verif_api::IdVec::new();
+        if n >= 2 && kani::any() {
+            v.push(b);
+            v.push(a);
+            return v;
+        }
+        if n >= 1 {
+            v.push(a);
+        }
+        if n >= 2 {
+            v.push(b);
+        }
+        v
+    }
+
+    #[async_trait::async_trait]
+    impl Storage for ModelStore {
+        type Error = StoreErr;
+        type DocsIter = std::iter::Empty<Document>;
+        type MetadataIter = std::iter::Empty<(Key, HLCTimestamp, bool)>;
+
+        async fn get_keyspace_list(&self) -> Result<std::vec::Vec<String>, Self::Error> {
+            Ok(std::vec::Vec::new())
+        }
+
+        async fn iter_metadata(&self, _keyspace: &str) -> Result<Self::MetadataIter, Self::Error> {
+            Ok(std::iter::empty())
+        }
+
+        // NOTE 1: the mutating methods are written in async_trait's desugared form and do their work EAGERLY, returning an
+        // already-completed future: the handlers await every storage call at once, so nothing can happen in between, and the
+        // boxed future then holds only the result - not the document (an Arc pointer) or the caller's iterator with its
+        // closures, whose byte-level encoding inside a heap-allocated future cost a factor of six in formula size.
+        // NOTE 2: the *_with_ctx methods do the work themselves: the trait's default bodies await a second boxed future
+        // of the same dyn type, whose drop glue Kani unwinds recursively (no result).
+        fn remove_tombstones<'life0, 'life1, 'async_trait>(
+            &'life0 self,
+            _keyspace: &'life1 str,
+            keys: impl Iterator<Item = Key> + Send + 'async_trait,
+        ) -> Pin<Box<dyn Future<Output = Result<(), BulkMutationError<Self::Error>>> + Send + 'async_trait>>
+        where
+            'life0: 'async_trait,
+            'life1: 'async_trait,
+            Self: 'async_trait,
+        {
+            Box::pin(std::future::ready(self.do_remove_tombstones(keys)))
+        }
+
+        fn put_with_ctx<'life0, 'life1, 'life2, 'async_trait>(
+            &'life0 self,
+            _keyspace: &'life1 str,
+            document: Document,
+            _ctx: Option<&'life2 PutContext>,
+        ) -> Pin<Box<dyn Future<Output = Result<(), Self::Error>> + Send + 'async_trait>>
+        where
+            'life0: 'async_trait,
+            'life1: 'async_trait,
+            'life2: 'async_trait,
+            Self: 'async_trait,
+        {
+            Box::pin(std::future::ready(self.do_put(document)))
+        }
+
+        fn put<'life0, 'life1, 'async_trait>(
+            &'life0 self,
+            _keyspace: &'life1 str,
+            document: Document,
+        ) -> Pin<Box<dyn Future<Output = Result<(), Self::Error>> + Send + 'async_trait>>
+        where
+            'life0: 'async_trait,
+            'life1: 'async_trait,
+            Self: 'async_trait,
+        {
+            Box::pin(std::future::ready(self.do_put(document)))
+        }
+
+        fn multi_put_with_ctx<'life0, 'life1, 'life2, 'async_trait>(
+            &'life0 self,
+            _keyspace: &'life1 str,
+            documents: impl Iterator<Item = Document> + Send + 'async_trait,
+            _ctx: Option<&'life2 PutContext>,
+        ) -> Pin<Box<dyn Future<Output = Result<(), BulkMutationError<Self::Error>>> + Send + 'async_trait>>
+        where
+            'life0: 'async_trait,
+            'life1: 'async_trait,
+            'life2: 'async_trait,
+            Self: 'async_trait,
+        {
+            Box::pin(std::future::ready(self.do_multi_put(documents)))
+        }
+
+        fn multi_put<'life0, 'life1, 'async_trait>(
+            &'life0 self,
+            _keyspace: &'life1 str,
+            documents: impl Iterator<Item = Document> + Send + 'async_trait,
+        ) -> Pin<Box<dyn Future<Output = Result<(), BulkMutationError<Self::Error>>> + Send + 'async_trait>>
+        where
+            'life0: 'async_trait,
+            'life1: 'async_trait,
+            Self: 'async_trait,
+        {
+            Box::pin(std::future::ready(self.do_multi_put(documents)))
+        }
+
+        fn mark_as_tombstone<'life0, 'life1, 'async_trait>(
+            &'life0 self,
+            _keyspace: &'life1 str,
+            doc_id: Key,
+            timestamp: HLCTimestamp,
+        ) -> Pin<Box<dyn Future<Output = Result<(), Self::Error>> + Send + 'async_trait>>
+        where
+            'life0: 'async_trait,
+            'life1: 'async_trait,
+            Self: 'async_trait,
+        {
+            Box::pin(std::future::ready(self.do_mark_as_tombstone(doc_id, timestamp)))
+        }
+
+        fn mark_many_as_tombstone<'life0, 'life1, 'async_trait>(
+            &'life0 self,
+            _keyspace: &'life1 str,
+            documents: impl Iterator<Item = DocumentMetadata> + Send + 'async_trait,
+        ) -> Pin<Box<dyn Future<Output = Result<(), BulkMutationError<Self::Error>>> + Send + 'async_trait>>
+        where
+            'life0: 'async_trait,
+            'life1: 'async_trait,
+            Self: 'async_trait,
+        {
+            Box::pin(std::future::ready(self.do_mark_many_as_tombstone(documents)))
         }
 
         async fn get(&self, _keyspace: &str, _doc_id: Key) -> Result<Option<Document>, Self::Error> {
@@ -313,6 +386,15 @@ mod verif_c02 {
         out
     }
 
+    /// A document whose payload has a second owner that is leaked: wherever the handler (or an iterator adapter)
+    /// drops the document, the reference count goes 2 -> 1 and the payload's deallocation path stays out of the
+    /// formula (the payload is not the subject: the handlers never look at it).
+    fn shared_doc(key: Key, ts: HLCTimestamp) -> Document {
+        let d = Document::new(key, ts, std::vec::Vec::new());
+        std::mem::forget(d.clone());
+        d
+    }
+
     fn any_source() -> usize {
         if kani::any() {
             1
@@ -333,7 +415,7 @@ mod verif_c02 {
         let before = snapshot(&actor);
         let key = any_key();
         let ts = any_ts();
-        let msg = Set { source: any_source(), doc: Document::new(key, ts, std::vec::Vec::new()), ctx: None, _marker: PhantomData };
+        let msg = Set { source: any_source(), doc: shared_doc(key, ts), ctx: None, _marker: PhantomData };
         let res = run(actor.on_set(msg));
         assert!(agree(&actor), "after a put request (successful or failed) set and store describe the same thing");
         assert!(inv2(&actor.state));
@@ -394,7 +476,7 @@ mod verif_c02 {
     // ---- bulk put of two documents with distinct ids: whatever the store reports as written (all,
     //      a prefix, nothing) is exactly what becomes visible in the set
     #[kani::proof]
-    #[kani::unwind(@@UNWIND@@)]
+    #[kani::unwind(@@UNWIND_BULK@@)]
     fn c02_on_multi_set_step() {
         let mut actor = agreeing_actor();
         let before = snapshot(&actor);
@@ -402,8 +484,8 @@ mod verif_c02 {
         kani::assume(k1 != k2);
         let (t1, t2) = (any_ts(), any_ts());
         let mut docs = crate::core::DocVec::<Document>::new();
-        docs.push(Document::new(k1, t1, std::vec::Vec::new()));
-        docs.push(Document::new(k2, t2, std::vec::Vec::new()));
+        docs.push(shared_doc(k1, t1));
+        docs.push(shared_doc(k2, t2));
         let msg = MultiSet { source: any_source(), docs, ctx: None, _marker: PhantomData };
         let res = run(actor.on_multi_set(msg));
         assert!(agree(&actor), "after a bulk put (complete, partial or failed) set and store describe the same thing");
@@ -435,7 +517,7 @@ mod verif_c02 {
 
     // ---- bulk delete of two documents with distinct ids
     #[kani::proof]
-    #[kani::unwind(@@UNWIND@@)]
+    #[kani::unwind(@@UNWIND_BULK@@)]
     fn c02_on_multi_del_step() {
         let mut actor = agreeing_actor();
         let before = snapshot(&actor);
@@ -501,7 +583,7 @@ mod verif_c02 {
     // ---- bulk requests carrying a single document (the 2-document forms above exceed the solver's
     //      memory; see DESIGN.md): same filter / storage / partial-failure / apply path
     #[kani::proof]
-    #[kani::unwind(@@UNWIND@@)]
+    #[kani::unwind(@@UNWIND_BULK@@)]
     fn c02_on_multi_del1_step() {
         let mut actor = agreeing_actor();
         let before = snapshot(&actor);
@@ -532,14 +614,14 @@ mod verif_c02 {
     }
 
     #[kani::proof]
-    #[kani::unwind(@@UNWIND@@)]
+    #[kani::unwind(@@UNWIND_BULK@@)]
     fn c02_on_multi_set1_step() {
         let mut actor = agreeing_actor();
         let before = snapshot(&actor);
         let k1 = any_key();
         let t1 = any_ts();
         let mut docs = crate::core::DocVec::<Document>::new();
-        docs.push(Document::new(k1, t1, std::vec::Vec::new()));
+        docs.push(shared_doc(k1, t1));
         let msg = MultiSet { source: any_source(), docs, ctx: None, _marker: PhantomData };
         let res = run(actor.on_multi_set(msg));
         assert!(agree(&actor), "after a bulk put (complete or failed) set and store describe the same thing");
